@@ -417,6 +417,23 @@ pub fn run(tier: Tier) -> i32 {
             let flat = text.replace('\n', " ");
             let k = &(if k.starts_with("cid-of-another-pipeline-used:Select") && flat.contains("join") && flat.split("join").skip(1).any(|j| j.trim_start().contains("select !{")) {
                 "excluded-column-reachable-through-the-alias-of-the-joined-pipeline".to_string()
+            } else if k == "cid-not-visible" && m.contains("used in Select") && {
+                // an exclusion over a relation known only through its wildcard, and later a second exclusion (written,
+                // or the implicit exclusion of the keys by `group`): the second forgets the first, the column
+                // excluded first is selected again
+                match flat.find("select !{") {
+                    Some(i) => {
+                        // `t` is read through its wildcard: a `from t` that is not narrowed by a `select {…}` right away
+                        let open_t = flat.match_indices("from t ").any(|(k, _)| {
+                            let rest = flat[k + 7..].trim_start();
+                            rest.starts_with("select !{") || !rest.starts_with("select {")
+                        });
+                        open_t && (flat[i + 9..].contains("select !{") || flat[i + 9..].contains("group {"))
+                    }
+                    None => false,
+                }
+            } {
+                "second-exclusion-over-open-relation-forgets-the-first".to_string()
             } else if k.starts_with("cid-of-another-pipeline-used") && flat.contains("<relation>") {
                 "relation-parameter-used-twice-in-a-function-body".to_string()
             } else if k == "cid-not-visible" && m.contains("Compute.expr") && flat.split("join").skip(1).any(|j| ["lag ", "lead ", "rank ", "row_number ", "sum ", "count ", "min ", "max ", "average ", "first ", "last "].iter().any(|f| j.split(')').next().map(|c| c.contains(&format!("({f}"))).unwrap_or(false) || j.contains(&format!("== ({f}")))) {
